@@ -283,7 +283,21 @@ func (ex *Exec) protoCopy(t types.Type, v Value, key *strings.Builder, decode bo
 			return Iface{}
 		}
 		w("<" + typeString(itf.T) + ">")
-		return Iface{T: itf.T, V: ex.protoCopy(itf.T, itf.V, key, decode)}
+		cp := ex.protoCopy(itf.T, itf.V, key, decode)
+		// a oneof member holding a nil message is sent as an empty message: it decodes non-nil
+		if wp, ok := cp.(*Pointer); ok && wp != nil {
+			if wst, ok := itf.T.(*types.Pointer).Elem().Underlying().(*types.Struct); ok && wst.NumFields() == 1 {
+				if ft, ok := wst.Field(0).Type().Underlying().(*types.Pointer); ok {
+					if _, isStruct := ft.Elem().Underlying().(*types.Struct); isStruct {
+						sv := wp.raw().(StructV)
+						if fp, _ := sv.f[0].(*Pointer); fp == nil {
+							sv.f[0] = &Pointer{obj: ex.newObject(zero(ft.Elem()), "proto")}
+						}
+					}
+				}
+			}
+		}
+		return Iface{T: itf.T, V: cp}
 	case *types.Basic:
 		w(fmt.Sprintf("k%d:", u.Kind()))
 		switch x := v.(type) {
